@@ -33,9 +33,12 @@ Transf == {Tr(a, t) : a \in PrimsG \cup {Bd(p) : p \in PrimsG}, t \in TransVecs}
 TransfQ == RotQ1 \cup RotQ2 \cup Rot3D1 \cup {Roq(Bd(p), an, V2(2, -4)) : p \in {Par(V2(-8, -6), V2(4, -2), V2(-4, 6)), Cir(<<A1(-4, "t"), A0(0)>>, A1(2, "k")), Poly(<<RingL>>)}, an \in {"t", "k"}}
            \cup {Ro3(Bd(p), m, V3(2, -4, 2)) : p \in {MeshBox, Sph}, m \in {"z345", "zx"}}
 Prods == {Pr(a, i) : a \in PrimsG, i \in Ints} \cup {Pr(i, m) : i \in Ints, m \in {MeshTet}} \cup {Pr(i, [k |-> "interval", v |-> "z", lo |-> A0(0), hi |-> A0(6)]) : i \in Ints}
+\* intersections of two products over (x, u): the first one gets a user-set bounding box in the history the driver runs
+IU(a, b) == [k |-> "interval", v |-> "u", lo |-> A0(a), hi |-> A0(b)]
+ProdAnd == {An(Pr(a, IU(-4, 6)), Pr(b, IU(0, 4))) : a \in {Cir(V2(0, 0), A0(6)), Par(V2(0, 0), V2(8, 0), V2(0, 8))}, b \in {Cir(V2(4, -2), A0(4)), Par(V2(-8, -6), V2(4, -2), V2(-4, 6))}}
 AttrExprs == IF Mode = "vol" THEN Basics \cup Bds \cup Transf \cup TransfQ \cup Prods \cup {u \in DisjU : DisjointOn(u.l, u.r)} \cup {c \in ContC : ContainedOn(c.r, c.l)}
              ELSE Basics \cup Bds \cup Transf \cup TransfQ \cup Prods \cup {x \in Depth1 : x.k \notin {"union", "cut", "and"} \/ x.l # x.r}
-                  \cup PolyD1 \cup MeshD1
+                  \cup PolyD1 \cup MeshD1 \cup ProdAnd
                   \cup {u \in DisjU : FreeVars(u) # {} /\ DisjointOn(u.l, u.r)} \cup {c \in ContC : FreeVars(c) # {} /\ ContainedOn(c.r, c.l)}
 Rows == <<[t |-> 0, k |-> 1], [t |-> 2, k |-> 0], [t |-> 1, k |-> 2]>>
 BindVals == <<[t |-> 1, k |-> 2], [t |-> 2, k |-> 0]>>
